@@ -4,6 +4,7 @@ import Mathlib.Tactic.FieldSimp
 import Mathlib.Algebra.Order.Field.Basic
 import IndicatifModel.Model.Format
 import IndicatifModel.Proofs.GenBridgeFmt
+import IndicatifModel.Proofs.GenBridgeDur
 /-!
 # C15 — Human-readable formatters (integer parts)
 -/
@@ -306,5 +307,21 @@ theorem C15_source_formatted_duration_and_units :
 
 /-- non-vacuity: 100 days and one second, written by the translated function -/
 example : GenBridge.renderPieces (Generated.formattedDuration 8640001) = "100d 00:00:01".toList := by decide +kernel
+
+/-- **`<HumanDuration as Display>::fmt` as read from the source** (`tools/gen_duration.py`, regenerated on every run: the start
+index, the look-ahead, the two divisors and the comparison of the unit loop, what its two arms do, the rounding, the clamp and the
+units it applies to, the arms of `match (f.alternate(), t)` with their format strings): the program these make up writes exactly
+the model's text — the one `C15_never_one_unit`, `C15_unit_switch_rule`, `C15_human_duration_monotone` and `C15_round_nearest`
+are about — for every duration and both forms. (Modelled, not read: `as_secs_f64`/`round` as exact rounding of the quotient of
+nanoseconds, `saturating_add` as addition; the stream compares both with the crate.) -/
+theorem C15_source_human_duration (d : Nat) (alternate : Bool) :
+    hdRun Generated.humanDurProg Generated.humanDurArms units d alternate = humanDuration d alternate :=
+  GenBridge.humanDuration_eq d alternate
+
+/-- non-vacuity: the program read from the source, run on 89.5 s and on 1 s -/
+example : hdRun Generated.humanDurProg Generated.humanDurArms units (89 * NS + 500000000) false = "2 minutes".toList ∧
+    hdRun Generated.humanDurProg Generated.humanDurArms units NS false = "1 second".toList ∧
+    hdRun Generated.humanDurProg Generated.humanDurArms units NS true = "1s".toList := by
+  refine ⟨by decide +kernel, by decide +kernel, by decide +kernel⟩
 
 end IndicatifModel.Format
